@@ -58,29 +58,39 @@ def closeWeight (a : Args) : Nat :=
 def outsideEps (p : Policy) (v0 v1 : Nat) : Bool :=
   if v0 > v1 then decide (v0 - v1 > p.epsilon) else decide (v1 - v0 > p.epsilon)
 
+/-- the epsilon comparison of the side that does not pay the fee against both latest commitments -/
+def valueChecks (p : Policy) (s : Setup) (hinfo cinfo : Info) (a : Args) : Except Kind Unit :=
+  if s.isOutbound then do
+    check p .mutualValueMatches (outsideEps p a.toCounterparty cinfo.toBroadcaster)
+    check p .mutualValueMatches (outsideEps p a.toCounterparty hinfo.toCountersigner)
+  else do
+    check p .mutualValueMatches (outsideEps p a.toHolder hinfo.toBroadcaster)
+    check p .mutualValueMatches (outsideEps p a.toHolder cinfo.toCountersigner)
+
+/-- the holder output must be spendable by the wallet or allowlisted -/
+def destCheck (p : Policy) (a : Args) : Except Kind Unit :=
+  match a.holderScript with
+  | none => .ok ()
+  | some o => check p .mutualDestinationAllowlisted (!o.canSpend && !o.allowlisted)
+
+/-- `validate_mutual_close_tx` once both current commitments are known -/
+def validateMutualCloseWith (p : Policy) (s : Setup) (hinfo cinfo : Info) (a : Args) : Except Kind Unit := do
+  check p .mutualDestinationAllowlisted (decide (a.toHolder > 0) && a.holderScript.isNone)
+  check p .mutualDestinationAllowlisted (decide (a.toCounterparty > 0) && a.cpScript.isNone)
+  whenE (s.upfront.isSome && decide (a.toHolder > 0))
+    (check p .mutualDestinationAllowlisted (decide (a.holderScript.map (·.sid) ≠ s.upfront)))
+  check p .mutualNoPendingHtlcs (!hinfo.htlcsEmpty || !cinfo.htlcsEmpty)
+  hard .value (decide (a.toHolder + a.toCounterparty > U64.MAX))
+  validateFee p .mutualFeeRange s.channelValue (a.toHolder + a.toCounterparty) (closeWeight a)
+  valueChecks p s hinfo cinfo a
+  destCheck p a
+
 /-- `validate_mutual_close_tx` -/
-def validateMutualClose (p : Policy) (s : Setup) (e : EState) (a : Args) : Except Kind Unit := do
+def validateMutualClose (p : Policy) (s : Setup) (e : EState) (a : Args) : Except Kind Unit :=
   match e.curHolderInfo, e.curCpInfo with
   | none, _ => .error .value
   | some _, none => .error .value
-  | some hinfo, some cinfo =>
-    check p .mutualDestinationAllowlisted (decide (a.toHolder > 0) && a.holderScript.isNone)
-    check p .mutualDestinationAllowlisted (decide (a.toCounterparty > 0) && a.cpScript.isNone)
-    if s.upfront.isSome ∧ a.toHolder > 0 then
-      check p .mutualDestinationAllowlisted (decide (a.holderScript.map (·.sid) ≠ s.upfront))
-    check p .mutualNoPendingHtlcs (!hinfo.htlcsEmpty || !cinfo.htlcsEmpty)
-    let w := closeWeight a
-    hard .value (decide (a.toHolder + a.toCounterparty > U64.MAX))
-    validateFee p .mutualFeeRange s.channelValue (a.toHolder + a.toCounterparty) w
-    if s.isOutbound then
-      check p .mutualValueMatches (outsideEps p a.toCounterparty cinfo.toBroadcaster)
-      check p .mutualValueMatches (outsideEps p a.toCounterparty hinfo.toCountersigner)
-    else
-      check p .mutualValueMatches (outsideEps p a.toHolder hinfo.toBroadcaster)
-      check p .mutualValueMatches (outsideEps p a.toHolder cinfo.toCountersigner)
-    match a.holderScript with
-    | none => pure ()
-    | some o => check p .mutualDestinationAllowlisted (!o.canSpend && !o.allowlisted)
+  | some hinfo, some cinfo => validateMutualCloseWith p s hinfo cinfo a
 
 /-- the common shape of `minimum_to_holder_value` / `minimum_to_counterparty_value` -/
 def minWithin (eps hval cval : Nat) : Option Nat :=
@@ -119,23 +129,27 @@ def candidates (p : Policy) (e : EState) (outs : List Out) : Option (Args × Arg
     let cpartyFirst : Args := ⟨o1.value, o0.value, some o1, some o0⟩
     some (if larger then (cpartyFirst, holderFirst) else (holderFirst, cpartyFirst))
 
+/-- try the likely reading, then the unlikely one; report the likely reading's error -/
+def chooseAssignment (p : Policy) (s : Setup) (e : EState) (outs : List Out) : Except Kind Args :=
+  match candidates p e outs with
+  | none => .error .panic
+  | some (likely, unlikely) =>
+    match validateMutualClose p s e likely with
+    | .ok () => .ok likely
+    | .error k =>
+      match validateMutualClose p s e unlikely with
+      | .ok () => .ok unlikely
+      | .error _ => .error k
+
 /-- `decode_and_validate_mutual_close_tx`: the assignment that is signed -/
 def decodeAndValidate (p : Policy) (s : Setup) (e : EState) (outs : List Out) (canon : Bool) :
     Except Kind Args := do
   hard .format (decide (outs.length > 2))
-  if e.curHolderInfo.isNone then policyErr p .mutualOther
-  if e.curCpInfo.isNone then policyErr p .mutualOther
-  match candidates p e outs with
-  | none => .error .panic
-  | some (likely, unlikely) =>
-    let good ← match validateMutualClose p s e likely with
-      | .ok () => pure likely
-      | .error k =>
-        match validateMutualClose p s e unlikely with
-        | .ok () => pure unlikely
-        | .error _ => .error k
-    check p .onchainFormatStandard (!canon)
-    pure good
+  whenE e.curHolderInfo.isNone (policyErr p .mutualOther)
+  whenE e.curCpInfo.isNone (policyErr p .mutualOther)
+  let good ← chooseAssignment p s e outs
+  check p .onchainFormatStandard (!canon)
+  pure good
 
 /-- `Channel::sign_mutual_close_tx_phase2` -/
 def signClose2 (p : Policy) (s : Setup) (e : EState) (a : Args) : Except Kind EState := do
